@@ -816,10 +816,11 @@ def run(ck: Check) -> None:
         known_findings(ck, rn)
     finally:
         rn.close()
-    # targeted searches (only after a broken obligation / correspondence): cheapest and most specific first
+    # targeted searches (only after a broken obligation / correspondence), the most specific first: the value-carrying
+    # family when its model or theorems broke, the options named by the table refuters, then every option through histories
     ck.search_hooks.append(c18_kv.search_kv)
-    ck.search_hooks.append(c18_repeat.search_repeated)
     ck.search_hooks.append(search_broken_tables)
+    ck.search_hooks.append(c18_repeat.search_repeated)
 
 
 def replay(ck: Check, path: str) -> int:
